@@ -808,7 +808,8 @@ def rule_v9(ctx):
     recs = []
     for b in sorted(region):
         for st in body.blocks[b]["stmts"]:
-            if st["k"] == "assign" and st["rv"]["k"] == "aggregate" and st["rv"].get("variant") == "Tuple" and "Assign" in (st["rv"].get("adt") or "") and len(st["rv"]["ops"]) == 3:
+            if st["k"] == "assign" and st["rv"]["k"] == "aggregate" and (st["rv"].get("adt") or "") in C02.local_record_adts(body) and len(st["rv"]["ops"]) == 3 and \
+                    all((o.get("ty") or o.get("place", {}).get("ty")) == "usize" for o in st["rv"]["ops"][1:3]):      # (collection, offset, width)
                 recs.append((b, st))
     if len(recs) < 2 and not res.findings:
         raise AnchorMissing("V9: expected the two Assign::Tuple records (tuple and struct accessor), found %d" % len(recs))
